@@ -20,6 +20,8 @@
 package main
 
 import (
+	"verifharness/lib/prodwt"
+
 	"fmt"
 	"go/ast"
 	"go/parser"
@@ -51,7 +53,7 @@ func main() {
 			"a race is reported only if the two accesses really happen without a happens-before edge in the observed execution; Go's race detector orders all file/socket I/O through one global object, so the stress tier is weak and the delay-injection matrix (which adds no synchronisation to the hooked goroutine) is the deciding race monitor; a missing lock at a place that no hook site precedes can be missed",
 			"the race verdict covers package server and glow code; the harness's own goroutines only use the exported Verif* accessors, which take the server's own locks",
 			"lock ORDER (README: mutexes never stack) is not instrumented; stacking is observed only through its consequence (a deadlock: watchdog + goroutine dump, or the lock probe)",
-			"the weekly WattTime job (managedGetWattTimeWeekData) is dead code in test builds (returns at once) and network bound in production builds: never executed here",
+			"the weekly WattTime job (managedGetWattTimeWeekData) is dead code in test builds (returns at once); its list/update window is driven in production-build episodes (kind prodwt, lib/prodwt: server built without the test tag in a private network namespace, the hard-coded https://api.watttime.org requests routed by HTTPS_PROXY + SSL_CERT_FILE to a fake service that bans a device while the job waits for the answer). Judged there: no panic, locks free, the answered values of devices that stayed authorized are in the window; not judged there: data races (the interfering request travels over sockets, which the race runtime orders)",
 			"interfering operations are injected only where real concurrency could put them (DESIGN §2.4 table): no rotation inside the rotator's own gaps, only UDP during start-up catch-up",
 			"'equals a sequential run' is judged (i) exactly, against the sequential model in the order imposed by a hook, (ii) as linearizability of recorded histories, (iii) for stress runs only through facts every arrival order yields; impact values are wall-clock derived in test builds and only their bookkeeping (one array per authorized device) is compared",
 			"watchdog expiry without a conclusive goroutine dump, a porcupine timeout, a site that was not reached or an injected operation that finished after the hooked goroutine resumed in more than half of the cells make the run inconclusive, never held",
@@ -87,6 +89,12 @@ func plan(tier string, seed int64) []run.Batch {
 	}
 	// the long batches first
 	add("cover", 0, "racecover", 400, nil)
+	add("prodwt", 2, "", 400, p("scenarios", "weekban-other,weekban"))
+	if tier == "thorough" {
+		for i := 0; i < 5; i++ {
+			add("prodwt", 3, "", 400, p("scenarios", "weekban,weekban-other,control"))
+		}
+	}
 	add("selftest", 0, "", 60, nil) // the porcupine model's self-test: no server, cannot be lost with a dying lin batch
 	for i := 0; i < directed; i++ {
 		add("directed", 0, "race", 240, nil)
@@ -148,6 +156,9 @@ func child(b run.Batch, r *ev.Result) {
 		childSelfTest(b, r)
 	case "scale":
 		childScale(b, r)
+	case "prodwt":
+		// production build (no test tag) next to a fake WattTime service: lib/prodwt
+		prodwt.RunEpisodes(r, b, b.Seed, strings.Split(b.P("scenarios"), ","))
 	default:
 		r.Inconc("unknown batch kind " + b.Kind)
 	}
@@ -398,6 +409,8 @@ func post(c *ev.Check, outs []*run.Outcome) {
 		c.Require("stress.phases_with_rotation", 1)
 		c.Require("stress.impact_rounds_during_run", 10)
 		c.Require("lockprobe.runs", 50)
+		c.Require("prodwt.episodes", 2)
+		c.Require("prodwt.bans_during_week_job", 1)
 		// which pairs of operation kinds really overlapped
 		total, seen := 0, 0
 		var missing []string
